@@ -12,4 +12,4 @@ for c in "$@"; do
   RES="$RES{\"check\":\"$c\",\"tier\":\"quick\",\"exit\":$rc,\"signature\":\"$sig\"},"
 done
 git -C /repo checkout -- .
-jq --argjson res "[${RES%,}]" '. + {checks_rerun_after_strengthening: $res}' "$D/meta.json" > /tmp/meta.$$ && mv /tmp/meta.$$ "$D/meta.json"
+jq --argjson res "[${RES%,}]" '. + {checks_rerun_after_strengthening: ((.checks_rerun_after_strengthening // []) | map(select(.check as $c | ($res | map(.check) | index($c)) | not)) + $res)}' "$D/meta.json" > /tmp/meta.$$ && mv /tmp/meta.$$ "$D/meta.json"
